@@ -307,6 +307,7 @@ def run(ctx, res):
             okit = True
         if okit:
             res.ok(rid5, "iter/%s" % ("into" if "IntoIter" in it.path else "ref"), it.loc(), "get_tree(tree_idx); advance only on Some")
+    r7_registration(F, res)
     res.explanation = (
         "THIN claim. Decides the structural clauses the property's why-text names and for which the definition of a GSS / RN "
         "table is an oracle: shifted heads keyed by (state, position); per-lookahead sub-frontiers keyed consistently through "
@@ -316,6 +317,100 @@ def run(ctx, res):
         "code restated): the reducer's re-queue discipline (completeness, no duplicates, the count) and the mixed-radix index "
         "decoding of solutions()/get_tree().")
     res.assumptions = ["the declined clause groups are not decided at all; a wrong re-queue condition is invisible to this check"]
+
+
+def r7_registration(F, res):
+    """RNGLR (Scott & Johnstone) says what is registered after a reduction reached node w over edge (v, w):
+    w is NEW      -> every shift of w, every reduction of w (length 0 from the node, length > 0 over the new edge), accept;
+    w existed, the edge is NEW -> only the reductions of length > 0, over the new edge;
+    neither      -> nothing.  Read off the reducer as a finite table over (action kind, node new, edge new, length > 0)."""
+    from . import tbl
+    rid = res.rule("C03-R7", "registration after a reduction (RNGLR): reduce iff node new or (edge new and length > 0), over the edge iff "
+                   "length > 0; shift and accept iff the node is new (so no head is shifted or accepted twice, no reduction is lost)", floor=3)
+    g, _paths = rt.cache(F).paths(rt.GLR + "reducer$")
+    tb = TermBuilder(g, F)
+    acc = [b for b, tm in g.calls() if callee(tm).endswith("::push") and tm["args"] and
+           mir.contains(tb.operand(tm["args"][0]), lambda x: x == ("param", "accepted_heads"))]
+    loops = tbl.loops_of(g)
+    cands = sorted([(h, body) for h, body in loops.items() if acc and acc[0] in body], key=lambda kv: len(kv[1]))
+    if not cands:
+        res.anchor_lost(rid, "the loop over the actions of the reduced-to head not found in the reducer", g.loc())
+        return
+    h = cands[0][0]
+    rows = []
+    for p in Sim(g, F).run(entry=h):
+        if not (p.events and p.events[-1] == ("backedge", h)):
+            continue
+        kind = None
+        atoms = {}
+        for tm, v in p.cond:
+            if tm[0] == "discr" and len(tm) > 2 and str(tm[2]).endswith("Action") and isinstance(v, frozenset) and len(v) == 1:
+                kind = next(iter(v))
+            elif tm in (("var", "head_created"), ("var", "edge_created")) and v in (0, 1):
+                atoms[tm[1]] = v
+            elif tm[0] == "bin" and tm[1] in ("Gt", "Ge", "Lt", "Le", "Eq", "Ne") and tm[3][0] == "const" and isinstance(tm[3][1], int) \
+                    and v in (0, 1) and mir.contains(tm[2], lambda x: isinstance(x, tuple) and x[0] == "vfield" and str(x[3]) in ("1", "length")):
+                # a comparison of the reduction length with a constant, kept as it is and evaluated for lengths 0, 1, 2
+                atoms.setdefault("len", []).append((tm[1], tm[3][1], v))
+            elif tm[0] == "discr" and is_call(tm[1], "Iterator>::next"):
+                pass
+            elif v in (0, 1) or isinstance(v, frozenset):
+                atoms.setdefault("?", []).append(fmt(tm)[:50])
+        if kind is None:
+            continue
+        reg = [e for e in p.events if e[0] == "call" and (e[1].endswith("::push_back") or e[1].endswith("::push")) and len(e[2]) > 1]
+        what = None
+        start = None
+        for e in reg:
+            recv = e[2][0]
+            if mir.contains(recv, lambda x: x == ("param", "pending_reductions")) or mir.contains(recv, lambda x: x == ("var", "pending_reductions")):
+                what = "reduce"
+                item = e[2][1]
+                if isinstance(item, tuple) and item[0] == "agg":
+                    st = dict(item[2]).get("start")
+                    start = st[1].rsplit("::", 1)[-1] if isinstance(st, tuple) and st[0] == "agg" else None
+            elif mir.contains(recv, lambda x: x == ("param", "pending_shifts")):
+                what = "shift"
+            elif mir.contains(recv, lambda x: x == ("param", "accepted_heads")):
+                what = "accept"
+        rows.append((kind, atoms, what, start))
+    kinds = {r[0] for r in rows}
+    if not {"Reduce", "Shift", "Accept"} <= kinds or any("?" in r[1] for r in rows):
+        res.anchor_lost(rid, "registration table of the reducer not recognised (kinds %s, unknown atoms %s)" % (
+            sorted(kinds), [r[1]["?"][:1] for r in rows if "?" in r[1]][:2]), g.loc())
+        return
+    import itertools
+    bad = {}
+    for kind in ("Reduce", "Shift", "Accept"):
+        for hc, ec, ln in itertools.product((0, 1), (0, 1), (0, 1, 2)):
+            if hc and not ec:
+                continue      # a new node always comes with a new edge
+            lg = 1 if ln > 0 else 0
+            val = {"head_created": hc, "edge_created": ec}
+            def holds(r):
+                for a, v in r[1].items():
+                    if a == "len":
+                        for op, k, vv in v:
+                            truth = {"Gt": ln > k, "Ge": ln >= k, "Lt": ln < k, "Le": ln <= k, "Eq": ln == k, "Ne": ln != k}[op]
+                            if truth != bool(vv):
+                                return False
+                    elif val[a] != v:
+                        return False
+                return True
+            got = {(r[2], r[3]) for r in rows if r[0] == kind and holds(r)}
+            if kind == "Reduce":
+                want_reg = bool(hc or (ec and lg))
+                want = {("reduce", "Edge" if lg else "Node")} if want_reg else {(None, None)}
+            else:
+                want = {(kind.lower(), None)} if hc else {(None, None)}
+            if got != want:
+                bad.setdefault(kind, "for (node new, edge new, length) = (%d, %d, %d) the reducer registers %s, RNGLR registers %s" % (
+                    hc, ec, ln, sorted(got, key=str), sorted(want, key=str)))
+    for kind in ("Reduce", "Shift", "Accept"):
+        if kind in bad:
+            res.violation(rid, "registration/" + kind.lower(), "GLR reducer, %s actions of the reduced-to head: %s" % (kind, bad[kind]), g.loc())
+        else:
+            res.ok(rid, "registration/" + kind.lower(), g.loc())
 
 
 def _root_next(t):
